@@ -153,6 +153,31 @@ def fam_innode_plus_edge():
     return out
 
 
+def fam_innode_partial_and_multi_input():
+    """(a) two structurally identical nodes whose input u has an in-node producer; only ONE of them also receives an
+    edge.  (b) an operator with two inputs u, w: u has two in-node producers, w an edge - in every declaration order."""
+    out = []
+    for variant in range(2):
+        fp = FP()
+        ops = {'sgb': op_sigmoid_alg(fp, 'sgb', m='u', v='vv'), 'srca': op_source(fp, 'srca', x='u', lam='la1'),
+               'li': op_leaky(fp, 'li', x='x', u='u')}
+        first = ['sgb', 'li'] if variant == 0 else ['srca', 'li']
+        nodes = {'n0': NodeSpec(first, _node_overrides(fp, ops, first)), 'n1': NodeSpec(first, _node_overrides(fp, ops, first)),
+                 'm': NodeSpec(['li'], _node_overrides(fp, ops, ['li']))}
+        edges = [EdgeSpec('m/li/x', 'n0/li/u', fp()), EdgeSpec('n1/li/x', 'm/li/u', fp())]
+        out.append((f"F1:innode+edge-partial:{variant}", ModelSpec('m', ops, nodes, edges,
+                                                                  note="in-node producer everywhere, edge into one node only")))
+    for order in (['srca', 'sgb', 'o1'], ['o1', 'sgb', 'srca'], ['sgb', 'o1', 'srca']):
+        fp = FP()
+        ops = {'srca': op_source(fp, 'srca', x='u', lam='la1'), 'sgb': op_sigmoid_alg(fp, 'sgb', m='u', v='vv'),
+               'o1': op_two_inputs(fp, 'o1', u='u', w='w'), 'li': op_leaky(fp)}
+        nodes = {'n0': NodeSpec(order, _node_overrides(fp, ops, order)), 'm': NodeSpec(['li'], _node_overrides(fp, ops, ['li']))}
+        edges = [EdgeSpec('m/li/x', 'n0/o1/w', fp()), EdgeSpec('n0/o1/x', 'm/li/u', fp())]
+        out.append((f"F1:two-inputs-multi-source:{''.join(o[0] for o in order)}",
+                    ModelSpec('m', ops, nodes, edges, note=f"u: two in-node producers, w: edge; declared {order}")))
+    return out
+
+
 def fam_mixed_nodes(seed=0, n=12):
     """F2b: 2-3 nodes of different operator structure (rpo+sg, li, two-input) with random edge sets incl. edges from
     two different variables of one node into one target variable, weight 1.0 / omitted / generic."""
